@@ -22,6 +22,30 @@ CHECKS = {
         "Trusts CPython as reference semantics and the probe kit's determinism. Loop bodies "
         "do not read the loop variable here (that is C01/C06).",
         "DESIGN.md section 3, C05"),
+    "C03": (
+        "exhaustive slot x child composition to depth 3 + Hypothesis deep trees + stdlib corpus + "
+        "converter-emitted trees; parser round-trip oracle (and ast.unparse differential)",
+        "Every (slot, child) and (slot, slot, child) composition over a catalogue of ~150 slots "
+        "and ~165 child kinds (3.6 million trees) is unparsed with expr_unparse and parsed back; "
+        "the tree must be identical. Deeper trees are drawn by Hypothesis, every expression of "
+        "the standard-library sources is swept, and trees emitted by the converter are checked "
+        "with the round trip and against ast.unparse. Exhaustive for the composition family, "
+        "sampled beyond.",
+        "Trusts the host parser (3.12) and ast.dump-style field equality modulo ctx/kind/positions. "
+        "Depth >= 4 is sampled only.",
+        "DESIGN.md section 3, C03"),
+    "C04": (
+        "enumeration of code points / short strings / f-string shapes x positions, Hypothesis "
+        "text, binary, ints and floats, stdlib literal corpus; parser round-trip oracle with "
+        "exact constant comparison and a no-line-break check",
+        "Literals are generated from an explicit shape grammar (code points 0..0x2FF, line-break "
+        "characters, surrogates, plane samples; all strings <= 4 over the quote/backslash/brace "
+        "alphabet; up to 14 syntactic positions incl. nested f-strings and format specs; bytes; "
+        "numbers incl. overflow, imaginary, > 4300-digit ints; conversion x spec x value x nesting "
+        "f-string shapes) plus Hypothesis text and all stdlib literals. The unparsed text must be "
+        "one physical line and parse back to the identical constants and f-string structure.",
+        "Trusts the host parser (3.12, PEP 701) for building input trees; values compared by type and repr.",
+        "DESIGN.md section 3, C04"),
 }
 
 NOT_YET = "check not built yet in this round; planned engine described in DESIGN.md section 3"
